@@ -17,7 +17,7 @@ pub struct Step {
     #[serde(default)]
     pub x: Vec<Value>,
     #[serde(default)]
-    pub post: Option<Post>,
+    pub post: Option<std::sync::Arc<Post>>,
 }
 
 #[derive(Clone, Debug, Deserialize)]
